@@ -1289,6 +1289,15 @@ class Stopper(Commander):
         self.application_start_requests: Dict[str, Stopper.StartApplicationParameters] = {}
         self.process_start_requests: Dict[str, List[Stopper.StartProcessParameters]] = {}
 
+    def abort(self) -> None:
+        """ Abort all jobs, including the start requests pending on their completion.
+
+        :return: None
+        """
+        super().abort()
+        self.application_start_requests = {}
+        self.process_start_requests = {}
+
     def stop_applications(self) -> None:
         """ Plan and start the necessary jobs to stop all the applications having a stop_sequence.
 
